@@ -130,19 +130,6 @@ func vc09Exec(n *vgcNode, w *vc09Write) error {
 	return fmt.Errorf("unknown kind %q", w.Kind)
 }
 
-// vc09AllFragments lists every open fragment of the holder.
-func vc09AllFragments(h *Holder) []*fragment {
-	var out []*fragment
-	for _, idx := range h.Indexes() {
-		for _, fld := range idx.Fields() {
-			for _, v := range fld.views() {
-				out = append(out, v.allFragments()...)
-			}
-		}
-	}
-	return out
-}
-
 // vc09AckIDs reads (never allocates) the ids of the keys w used.
 func vc09AckIDs(n *vgcNode, w *vc09Write) vc09Ack {
 	var a vc09Ack
@@ -220,7 +207,7 @@ func TestVerifC09Child(t *testing.T) {
 		ack, _ := json.Marshal(vc09AckIDs(n, w))
 		vc09Say("ACK %d %s", i, ack)
 		if h.Schema.MaxOpN > 0 {
-			for _, f := range vc09AllFragments(n.Server.holder) {
+			for _, f := range vgcAllFragments(n.Server.holder) {
 				f.mu.Lock()
 				f.MaxOpN = h.Schema.MaxOpN
 				f.mu.Unlock()
@@ -228,7 +215,7 @@ func TestVerifC09Child(t *testing.T) {
 		}
 	}
 	// let queued snapshots finish so that no file operation is cut by the exit
-	for _, f := range vc09AllFragments(n.Server.holder) {
+	for _, f := range vgcAllFragments(n.Server.holder) {
 		f.awaitSnapshot()
 	}
 	vc09Say("DONE")
